@@ -110,11 +110,16 @@ func genC02(t *rapid.T) *C02Case {
 			}
 			phaseItems = append(phaseItems, Item{Rule: r})
 		}
-		// optional engine switch as the LAST rule of the phase
+		// optional engine switch, at the end of the phase or anywhere inside it
 		if rapid.IntRange(0, 19).Draw(t, "switch") == 0 {
 			id++
 			mode := rapid.SampledFrom([]string{"On", "DetectionOnly", "Off"}).Draw(t, "mode")
-			phaseItems = append(phaseItems, Item{Rule: &Rule{ID: id, Phase: p, SecAction: true, Disr: "pass", Acts: []string{"ctl:ruleEngine=" + mode}}})
+			sw := Item{Rule: &Rule{ID: id, Phase: p, SecAction: true, Disr: "pass", Acts: []string{"ctl:ruleEngine=" + mode}}}
+			pos := len(phaseItems)
+			if rapid.Bool().Draw(t, "switchinside") {
+				pos = rapid.IntRange(0, len(phaseItems)).Draw(t, "switchpos")
+			}
+			phaseItems = append(phaseItems[:pos], append([]Item{sw}, phaseItems[pos:]...)...)
 		}
 		items = append(items, phaseItems...)
 	}
@@ -389,6 +394,10 @@ func checkC02(c *C02Case) Result {
 	var want *Intr
 	wantIdx := -1
 	for i, fr := range fired {
+		if mode == "Off" {
+			res.Fail = failf("rule %d was evaluated although the engine had been switched Off by an earlier rule%s", fr.ID, ctx())
+			return res
+		}
 		if limitCut >= 0 && i >= limitCut && want == nil {
 			break // the body-limit interruption came first
 		}
